@@ -388,7 +388,7 @@ Lemma ts_rename_ok : forall kn e e', NoDup (fst <$> kn) -> ts_rename e kn = (e',
 Proof.
   induction kn as [|[k n] kn IH]; intros e e' Hnd; cbn [ts_rename].
   - intros [= <-]. split; [intros k H; inversion H|reflexivity].
-  - destruct (e !! k) as [c|] eqn:Ek; [|discriminate]. intros H.
+  - destruct (e !! k) as [c|] eqn:Ek; [|discriminate]. destruct (name_eqb n ""); [discriminate|]. intros H.
     cbn [fmap list_fmap fst] in Hnd. apply NoDup_cons in Hnd as [Hk Hnd].
     destruct (IH _ _ Hnd H) as [A B]. split.
     + intros x Hx. apply elem_of_cons in Hx as [->|Hx]; [eauto|].
@@ -575,13 +575,13 @@ Proof. rewrite !fmap_length. reflexivity. Qed.
 Lemma is_ok_false er : negb (is_ok er) = false -> er = EOk.
 Proof. intros H. apply negb_false_iff in H. unfold is_ok in H. apply bool_decide_eq_true in H. exact H. Qed.
 
-Lemma rename_remote_cons validate p s kn s' :
+Lemma rename_remote_cons fixed validate p s kn s' :
   Inv s -> Cons s -> NoDup (fst <$> kn) ->
-  rename_remote validate p s kn = (s', EOk) -> Cons s'.
+  rename_remote fixed validate p s kn = (s', EOk) -> Cons s'.
 Proof.
   intros I C Hnd. unfold rename_remote. destruct (is_node s p) eqn:En; cbn [negb]; [|discriminate].
   apply is_node_true in En.
-  destruct (rename_checks validate s _ _) as [er0 amb].
+  destruct (rename_checks fixed validate s _ _) as [er0 amb].
   destruct (negb (is_ok er0)) eqn:Eo0; [intros [= _ ->]; discriminate|].
   set (s0 := upd_amb s amb).
   assert (I0 : Inv s0) by (eapply Inv_ext; [exact I|apply ext_upd_amb]).
@@ -607,16 +607,16 @@ Proof.
   - intros k Hk. rewrite <- Eown in Hk. eapply fst_filter_lease. exact Hk.
 Qed.
 
-Lemma rename_peers_cons validate : forall peers s kn s',
+Lemma rename_peers_cons fixed validate : forall peers s kn s',
   Inv s -> Cons s -> NoDup (fst <$> kn) ->
-  rename_peers validate s peers kn = (s', EOk) -> Cons s' /\ ext s s'.
+  rename_peers fixed validate s peers kn = (s', EOk) -> Cons s' /\ ext s s'.
 Proof.
   induction peers as [|p peers IH]; intros s kn s' I C Hnd; cbn [rename_peers].
   - intros [= <-]. split; [exact C|apply ext_refl].
-  - destruct (rename_remote validate p s _) as [s1 er1] eqn:E1.
+  - destruct (rename_remote fixed validate p s _) as [s1 er1] eqn:E1.
     destruct (is_ok er1) eqn:Eo; [|intros [= _ ->]; discriminate].
     unfold is_ok in Eo. apply bool_decide_eq_true in Eo. subst er1. intros H.
-    pose proof (rename_remote_ext _ _ _ _ _ _ E1) as X1.
+    pose proof (rename_remote_ext _ _ _ _ _ _ _ E1) as X1.
     assert (C1 : Cons s1) by (eapply rename_remote_cons; [exact I|exact C|apply NoDup_fst_filter, Hnd|exact E1]).
     destruct (IH _ _ _ (Inv_ext _ _ I X1) C1 Hnd H) as [C2 X2].
     split; [exact C2|eapply ext_trans; eassumption].
@@ -627,7 +627,7 @@ Lemma rename_keys_cons validate host s keys names s' out :
   rename_keys true validate host s keys names = (s', (EOk, out)) -> Cons s'.
 Proof.
   intros I C Hn Hnd. unfold rename_keys.
-  destruct (rename_checks validate s keys names) as [er0 amb] eqn:Ech.
+  destruct (rename_checks true validate s keys names) as [er0 amb] eqn:Ech.
   destruct (negb (is_ok er0)) eqn:Eo0; [intros [= _ -> _]; discriminate|]. apply is_ok_false in Eo0. subst er0.
   assert (Hlen : length keys = length names).
   { unfold rename_checks in Ech. destruct (length keys =? length names)%nat eqn:El; cbn [negb] in Ech; [|discriminate].
@@ -637,9 +637,9 @@ Proof.
   assert (C0 : Cons s0) by (apply Cons_upd_amb, C).
   set (kn := zip keys names).
   assert (Hndk : NoDup (fst <$> kn)) by (unfold kn; rewrite fst_zip_eq by exact Hlen; exact Hnd).
-  destruct (rename_peers validate s0 _ kn) as [s1 er1] eqn:E1.
+  destruct (rename_peers true validate s0 _ kn) as [s1 er1] eqn:E1.
   destruct (negb (is_ok er1)) eqn:Eo1; [intros [= _ -> _]; discriminate|]. apply is_ok_false in Eo1. subst er1.
-  destruct (rename_peers_cons _ _ _ _ _ I0 C0 Hndk E1) as [C1 X1].
+  destruct (rename_peers_cons _ _ _ _ _ _ I0 C0 Hndk E1) as [C1 X1].
   set (s1' := upd_amb s1 _).
   assert (I1 : Inv s1') by (eapply Inv_ext; [eapply Inv_ext; [exact I0|exact X1]|apply ext_upd_amb]).
   assert (C1' : Cons s1') by (apply Cons_upd_amb, C1).
@@ -666,10 +666,13 @@ Qed.
 
 (* ---- a rejected rename leaves both stores as they were *)
 Lemma ts_rename_total : forall kn e, (forall k, k ∈ (fst <$> kn) -> is_Some (e !! k)) ->
+  Forall (fun n => n <> "") (snd <$> kn) ->
   exists e', ts_rename e kn = (e', EOk).
 Proof.
-  induction kn as [|[k n] kn IH]; intros e H; cbn [ts_rename]; [eauto|].
-  destruct (H k) as [c Hc]; [left|]. rewrite Hc. apply IH. intros x Hx.
+  induction kn as [|[k n] kn IH]; intros e H Hnames; cbn [ts_rename]; [eauto|].
+  cbn [fmap list_fmap snd] in Hnames. apply Forall_cons in Hnames as [Hn Hnames].
+  destruct (H k) as [c Hc]; [left|]. rewrite Hc.
+  unfold name_eqb. rewrite bool_decide_false by exact Hn. apply IH; [|exact Hnames]. intros x Hx.
   destruct (decide (x = k)) as [->|Hne]; [rewrite lookup_insert; eauto|].
   rewrite lookup_insert_ne by congruence. apply H. right. exact Hx.
 Qed.
@@ -677,12 +680,19 @@ Qed.
 (* renameGateway from a consistent state: the metadata update validates (every key exists, none
    internal) before anything is written, and once it passes the engine cannot refuse — so a rename
    that returns an error has changed neither metadata nor engine *)
+Lemma snd_zip_eq {A B} : forall (l : list A) (k : list B), length l = length k -> snd <$> zip l k = k.
+Proof.
+  induction l as [|x l IH]; intros [|y k] H; try discriminate; [reflexivity|].
+  cbn. f_equal. apply IH. cbn in H. lia.
+Qed.
+
 Theorem rename_gateway_rejected host s keys names s' er :
   Inv s -> Cons s -> is_Some (s_eng s !! host) -> length keys = length names ->
+  Forall (fun n => n <> "") names ->
   (forall k, k ∈ keys -> leaseholder k = host) ->
   rename_gateway host s keys names = (s', er) -> er <> EOk -> s' = s.
 Proof.
-  intros I C Hn Hlen Hkeys. unfold rename_gateway.
+  intros I C Hn Hlen Hnames Hkeys. unfold rename_gateway.
   destruct (tab_rename (s_tab s) keys names) as [t' er1] eqn:Et.
   destruct (negb (is_ok er1)) eqn:Eo; [intros [= <- _] _; reflexivity|].
   apply is_ok_false in Eo. subst er1.
@@ -693,5 +703,6 @@ Proof.
     assert (Hl : c_lease c = host) by (rewrite <- (Inv_row_lease s k c I Hc); apply Hkeys, Hk).
     assert (Hnf : c_lease c <> node_free) by (rewrite Hl; destruct (inv_nodes _ I host Hn); lia).
     pose proof (cons_tab _ C k c Hc Hnf) as H. rewrite Hl in H. rewrite H. eauto. }
+  { rewrite snd_zip_eq by exact Hlen. exact Hnames. }
   rewrite He'. intros [= _ <-] H. congruence.
 Qed.
